@@ -48,6 +48,9 @@ def vectors(cls, tier, rng):
         v[f] = True
         out.append(v)
     out.append({})            # library defaults
+    for f in fl:              # one option switched explicitly, all others at the library default
+        out.append({f: True})
+        out.append({f: False})
     out.append({f: True for f in fl})
     n = 6 if tier == "quick" else 40
     for _ in range(n):
@@ -60,7 +63,7 @@ def gen_tasks(tier, seed):
     tasks = []
     dags = I.dag_graphs(tier, rng, quick_n=3, thorough_n5=6)
     if tier == "quick":
-        dags = [d for d in dags if d[0] in ("diamond_shortcut", "multi_src_sink", "bubble_chain", "ladder", "star_out", "single_edge")] + dags[-3:]
+        dags = [d for d in dags if d[0] in ("diamond_shortcut", "multi_src_sink", "bubble_chain", "ladder", "star_out", "single_edge", "bowtie")] + dags[-3:]
     for name, es in dags:
         fl = I.dag_flow(es, rng)
         if fl is None:
@@ -75,6 +78,12 @@ def gen_tasks(tier, seed):
                  ("kMinPathError", arb, {"k": k, "weight_type": "int"}), ("kLeastAbsErrors", arb, {"k": min(2, k), "weight_type": "int"}),
                  ("kLeastAbsErrors", arb, {"k": k, "weight_type": "int", "subpath_constraints": [sp]}),
                  ("kPathCover", es, {"k": k}), ("MinPathCover", es, {})]
+        # fractional coverage: a 3-edge constraint whose middle edge is heavy and whose end edges are light, k = 1
+        # (the best route uses only the interior edge; every 3-edge subpath in turn)
+        for R in [c for c in I.contiguous_subpaths(es, 3) if len(c) == 3][: (3 if tier == "quick" else 12)]:
+            lw = [(u, v, 1 if (u, v) in (R[0], R[2]) else 10) for (u, v) in es]
+            for cls2 in ("kLeastAbsErrors", "kMinPathError"):
+                insts.append((cls2, lw, {"k": 1, "weight_type": "int", "subpath_constraints": [R], "subpath_constraints_coverage": 0.3}))
         for cls, ed, kw in insts:
             for vec in vectors(cls, tier, rng):
                 tasks.append({"name": name, "cls": cls, "edges": ed, "kwargs": kw, "vec": vec})
